@@ -113,6 +113,15 @@ func runC12Reentrant(c *eng.Ctx, next func() (int, bool)) {
 		// the scope BETWEEN the instance's scope and the ancestor it closes is the one that is closed
 		"scoped-instance-closes-the-grandparent:middle-scope-closed-directly",
 		"scoped-instance-closes-the-provider-while-the-grandparent-chain:middle-scope-closed-directly",
+		// ... and owns no instance with a Close method itself (a pure grouping scope)
+		"scoped-instance-closes-the-grandparent:middle-scope-closed-directly:middle-scope-owns-nothing",
+		"scoped-instance-closes-the-provider-while-the-grandparent-chain:middle-scope-closed-directly:middle-scope-owns-nothing",
+		"scoped-instance-closes-the-grandparent:own-scope-closed-directly:middle-scope-owns-nothing",
+		// ... and has TWO child scopes, each with such an instance: whichever the cascade reaches first
+		// closes the ancestor while the other child has not been reached yet
+		"scoped-instances-of-two-sibling-scopes-close-the-grandparent:middle-scope-closed-directly",
+		"scoped-instances-of-two-sibling-scopes-close-the-provider-while-the-grandparent-chain:middle-scope-closed-directly",
+		"scoped-instances-of-two-sibling-scopes-close-the-grandparent:grandparent-closed-directly",
 		// the instance lives in a TOP-LEVEL scope (created by the provider, no parent scope) or in the
 		// provider's root scope (closed through the handle Resolve[godi.Scope](provider) returns)
 		"top-level-scope-instance-closes-the-provider:own-scope-closed-directly",
@@ -141,6 +150,8 @@ func runC13Reentrant(c *eng.Ctx, next func() (int, bool)) {
 		"top-level-scope-instance-closes-the-provider:own-scope-closed-directly",
 		"top-level-scope-instance-closes-the-provider:own-scope-closed-by-cancel",
 		"root-scope-instance-closes-the-provider:root-scope-closed-through-its-handle",
+		"scoped-instance-closes-the-provider-while-the-grandparent-chain:middle-scope-closed-directly:middle-scope-owns-nothing",
+		"scoped-instances-of-two-sibling-scopes-close-the-provider-while-the-grandparent-chain:middle-scope-closed-directly",
 	} {
 		idx, mine := next()
 		if !mine {
@@ -162,6 +173,10 @@ func init() {
 			"scoped-instance-closes-the-grandparent:own-scope-closed-directly",
 			"scoped-instance-closes-the-grandparent:middle-scope-closed-directly",
 			"scoped-instance-closes-the-provider-while-the-grandparent-chain:middle-scope-closed-directly",
+			"scoped-instance-closes-the-grandparent:middle-scope-closed-directly:middle-scope-owns-nothing",
+			"scoped-instances-of-two-sibling-scopes-close-the-grandparent:middle-scope-closed-directly",
+			"scoped-instances-of-two-sibling-scopes-close-the-provider-while-the-grandparent-chain:middle-scope-closed-directly",
+			"scoped-instances-of-two-sibling-scopes-close-the-grandparent:grandparent-closed-directly",
 		} {
 			idx, mine := next()
 			if !mine {
@@ -171,12 +186,35 @@ func init() {
 			reCase(c, "C11", idx, v)
 		}
 	}
+	// ... and for C10: every instance is closed exactly once, none is left open because a Close
+	// that re-entered an ancestor never came back
+	core.C10ReentrantClose = func(c *eng.Ctx, next func() (int, bool)) {
+		for _, v := range []string{
+			"scoped-instance-closes-the-parent:own-scope-closed-directly",
+			"scoped-instance-closes-the-provider:own-scope-closed-directly",
+			"scoped-instance-closes-the-grandparent:middle-scope-closed-directly",
+			"scoped-instance-closes-the-grandparent:middle-scope-closed-directly:middle-scope-owns-nothing",
+			"scoped-instance-closes-the-provider-while-the-grandparent-chain:middle-scope-closed-directly:middle-scope-owns-nothing",
+			"scoped-instance-closes-the-grandparent:own-scope-closed-directly:middle-scope-owns-nothing",
+			"scoped-instances-of-two-sibling-scopes-close-the-grandparent:middle-scope-closed-directly",
+		} {
+			idx, mine := next()
+			if !mine {
+				continue
+			}
+			c.R.Begin(idx)
+			reCase(c, "C10", idx, v)
+		}
+	}
 }
 
 func reCase(c *eng.Ctx, prop string, idx int, variant string) {
 	viol := func(clause, detail string) {
 		if (prop == "C11") != (clause == "descendant-instance-closed-after-ancestor-instance") || prop == "C13" {
 			return // the order is C11's, a hang C12's and C13's, everything else C12's
+		}
+		if prop == "C10" && clause != "close-count" && clause != "not-closed" {
+			return // C10 judges how often every instance was closed
 		}
 		c.R.Violation(eng.Violation{Prop: prop, Clause: clause, Sig: prop + "/" + clause + ":close-called-from-inside-a-close-method:" + variant, Case: idx, CaseID: "reentrant-close-" + variant,
 			Detail: variant + ": " + detail, Replay: map[string]any{"fixture": "reentrant-close", "variant": variant}})
@@ -217,15 +255,19 @@ func reCase(c *eng.Ctx, prop string, idx int, variant string) {
 		child, err = mid.CreateScope(nil)
 	}
 	must(err)
-	labelled := []struct {
+	type lab = struct {
 		sc    godi.Scope
 		label string
-	}{{parent, "parent"}, {child, "child"}}
-	if mid != parent {
-		labelled = append(labelled[:1:1], struct {
-			sc    godi.Scope
-			label string
-		}{mid, "mid"}, labelled[1])
+	}
+	labelled := []lab{{parent, "parent"}, {child, "child"}}
+	if mid != parent && !strings.Contains(variant, "middle-scope-owns-nothing") {
+		labelled = append(labelled[:1:1], lab{mid, "mid"}, labelled[1])
+	}
+	var child2 godi.Scope
+	if strings.Contains(variant, "two-sibling-scopes") {
+		child2, err = mid.CreateScope(context.Background())
+		must(err)
+		labelled = append(labelled, lab{child2, "child2"})
 	}
 	for _, s := range labelled {
 		w.mu.Lock()
@@ -296,14 +338,33 @@ func reCase(c *eng.Ctx, prop string, idx int, variant string) {
 			w.target = prov.Close
 			outer = root.Close
 		}
-	case "scoped-instance-closes-the-grandparent:middle-scope-closed-directly":
+	case "scoped-instance-closes-the-grandparent:middle-scope-closed-directly", "scoped-instance-closes-the-grandparent:middle-scope-closed-directly:middle-scope-owns-nothing":
 		_, err = godi.Resolve[*reCloser](child)
 		w.target = parent.Close
 		outer = mid.Close
-	case "scoped-instance-closes-the-provider-while-the-grandparent-chain:middle-scope-closed-directly":
+	case "scoped-instance-closes-the-provider-while-the-grandparent-chain:middle-scope-closed-directly", "scoped-instance-closes-the-provider-while-the-grandparent-chain:middle-scope-closed-directly:middle-scope-owns-nothing":
 		_, err = godi.Resolve[*reCloser](child)
 		w.target = prov.Close
 		outer = mid.Close
+	case "scoped-instance-closes-the-grandparent:own-scope-closed-directly:middle-scope-owns-nothing":
+		_, err = godi.Resolve[*reCloser](child)
+		w.target = parent.Close
+		outer = child.Close
+	case "scoped-instances-of-two-sibling-scopes-close-the-grandparent:middle-scope-closed-directly",
+		"scoped-instances-of-two-sibling-scopes-close-the-provider-while-the-grandparent-chain:middle-scope-closed-directly",
+		"scoped-instances-of-two-sibling-scopes-close-the-grandparent:grandparent-closed-directly":
+		if _, err = godi.Resolve[*reCloser](child); err == nil {
+			_, err = godi.Resolve[*reCloser](child2)
+		}
+		w.target = parent.Close
+		outer = mid.Close
+		if strings.Contains(variant, "close-the-provider") {
+			w.target = prov.Close
+		}
+		if strings.HasSuffix(variant, "grandparent-closed-directly") {
+			outer = parent.Close
+		}
+		wantClosers = 2
 	case "scoped-instance-closes-the-provider:own-scope-closed-directly":
 		_, err = godi.Resolve[*reCloser](child)
 		w.target = prov.Close
@@ -331,7 +392,10 @@ func reCase(c *eng.Ctx, prop string, idx int, variant string) {
 	finished := make(chan struct{})
 	go func() { outerErr = <-done; close(finished) }()
 	if v := awaitOrDiagnose(finished, 20*time.Second); !v.Done {
-		if prop != "C12" && prop != "C13" {
+		if prop == "C10" && v.Deadlock {
+			c.R.Violation(eng.Violation{Prop: prop, Clause: "leaked", Sig: "C10/leaked:close-called-from-inside-a-close-method:" + variant, Case: idx, CaseID: "reentrant-close-" + variant,
+				Detail: fmt.Sprintf("%s: the Close never returned, so %d of the %d instances with a Close method are never closed; goroutines stuck inside godi:\n%s", variant, len(labelled)+wantClosers-int(w.otherCl.Load())-int(w.closes.Load()), len(labelled)+wantClosers, v.Dump), Replay: map[string]any{"fixture": "reentrant-close", "variant": variant}})
+		} else if prop != "C12" && prop != "C13" {
 			c.R.Inconclusive(idx, "re-entrant close case did not finish (the hang is C12's to report): the close order cannot be judged")
 		} else if v.Deadlock {
 			c.R.Violation(eng.Violation{Prop: prop, Clause: "hang", Sig: prop + "/hang:close-called-from-inside-a-close-method:" + variant + ":" + innermostGodiFn(v.Dump), Case: idx, CaseID: "reentrant-close-" + variant,
@@ -378,14 +442,14 @@ func reCase(c *eng.Ctx, prop string, idx int, variant string) {
 	if e, _ := w.innerE.Load().(string); e != "" {
 		viol("second-close-not-nil", "the Close called from inside the Close method returned "+e)
 	}
-	if w.innerN.Load() != 1 {
-		viol("not-closed", fmt.Sprintf("the instance's Close ran %d times", w.innerN.Load()))
+	if int(w.innerN.Load()) != wantClosers {
+		viol("not-closed", fmt.Sprintf("the Close of the %d instance(s) that close an ancestor ran %d times", wantClosers, w.innerN.Load()))
 	}
 	_ = prov.Close()
 	w.mu.Lock()
 	order := append([]string(nil), w.order...)
 	w.mu.Unlock()
-	depth := map[string]int{"parent": 0, "mid": 1, "child": 2}
+	depth := map[string]int{"parent": 0, "mid": 1, "child": 2, "child2": 2}
 	if !strings.Contains(variant, "closes-its-own-scope") {
 		for i := 1; i < len(order); i++ {
 			if depth[order[i]] > depth[order[i-1]] {
